@@ -180,6 +180,9 @@ pub fn run_case(voc: &concretise::Vocab, case: &Value, dump: Option<&str>) -> Ve
                                    "same": d2 == base, "base_read": g.read_outcome}).to_string());
             }
         }
+        "cli" => {
+            events.extend(crate::cli::run(case));
+        }
         "robust" => {
             // base files (abstract or from a path), then the mutations the case lists, then one generation
             let (mut fs, st) = load_case_files(voc, case);
